@@ -78,6 +78,9 @@ def dist_to_matrix(D):
     return X
 
 
+FILL = ["generic"]  # how a structural counterexample (no values) is instantiated on the real stack: "generic" pairwise-different values, or "zeros"
+
+
 SCALES = (1.0, 1e-3, 1e-6, 1e-9, 1e3, 1e6)
 
 
